@@ -114,7 +114,7 @@ def run(pid, tier, seed, replay=None):
     kf = core.known_findings()
     consts = {'KnownDev': core.tla_set(core.known_dev_ids(kf))}
     violations, known_hit = [], set()
-    sweep = ['--sweep', '1'] if pid in ('C01', 'C02') else []   # accessor sweep of all single-layer decoders
+    sweep = ['--sweep', '1'] if pid in ('C01', 'C02', 'C06') else []   # accessor sweep of all single-layer decoders
     stats = {'generated': 0, 'distinct': 0, 'events': 0, 'runs': 0}
     samples = []
     notes = {}
